@@ -1,0 +1,312 @@
+//! Verification hooks, compiled only with the `verif` cargo feature.
+//!
+//! An external harness can install one process-wide [`Observer`]; the engine then reports what
+//! happens at its own blocking points (channel sends and receives, worker and network threads,
+//! the iteration state lock). Callbacks run on the thread performing the action, *before* a send
+//! and *after* a receive returned, so a callback that sleeps only delays the engine where it could
+//! have been delayed anyway. With no observer installed every hook is a single atomic load.
+
+use std::any::Any;
+use std::hash::Hasher;
+use std::sync::atomic::{AtomicBool, Ordering};
+use std::sync::{Arc, RwLock};
+
+use serde::Serialize;
+
+pub use crate::network::{Coord, ReceiverEndpoint};
+use crate::network::NetworkMessage;
+use crate::operator::StreamElement;
+
+/// Kind of a stream element, as reported in an [`ElemDigest`].
+pub const KIND_ITEM: u8 = 0;
+pub const KIND_TIMESTAMPED: u8 = 1;
+pub const KIND_WATERMARK: u8 = 2;
+pub const KIND_FLUSH_BATCH: u8 = 3;
+pub const KIND_TERMINATE: u8 = 4;
+pub const KIND_FLUSH_AND_RESTART: u8 = 5;
+
+/// Digest of one stream element travelling on a link.
+#[derive(Debug, Clone, Copy, PartialEq, Eq, Hash)]
+pub struct ElemDigest {
+    /// One of the `KIND_*` constants.
+    pub kind: u8,
+    /// The timestamp of `Timestamped` and `Watermark` elements, 0 otherwise.
+    pub ts: i64,
+    /// Hash of the serialized payload (0 for control elements).
+    pub hash: u64,
+}
+
+/// A type-erased view on a batch travelling on a link.
+pub trait Batch {
+    /// The replica that produced the batch.
+    fn sender(&self) -> Coord;
+    /// Number of elements.
+    fn len(&self) -> usize;
+    /// True if there are no elements.
+    fn is_empty(&self) -> bool {
+        self.len() == 0
+    }
+    /// Digest of every element, in order.
+    fn digests(&self) -> Vec<ElemDigest>;
+    /// The payload of the i-th element, if it carries one.
+    fn payload(&self, i: usize) -> Option<&dyn Any>;
+}
+
+/// Kind of network thread.
+#[derive(Debug, Clone, Copy, PartialEq, Eq, Hash)]
+pub enum NetThread {
+    /// Multiplexer: drains a queue and writes to a socket.
+    Mux,
+    /// Acceptor of the demultiplexer.
+    DemuxBind,
+    /// Demultiplexer: reads a socket and delivers to local channels.
+    Demux,
+}
+
+/// What the engine reports.
+pub enum Event<'a> {
+    /// A worker thread is about to run a replica.
+    WorkerStart { coord: Coord },
+    /// A worker thread finished (normally or by a panic).
+    WorkerEnd { coord: Coord, panicked: bool },
+    /// A network thread started; `demux` is `(block, host, prev block)` of the demultiplexer.
+    NetStart { kind: NetThread, demux: (u64, u64, u64) },
+    /// A network thread ended.
+    NetEnd { kind: NetThread, demux: (u64, u64, u64) },
+    /// A network thread is about to wait for its input (queue or socket).
+    NetIdle { kind: NetThread },
+    /// A network thread got some input.
+    NetBusy { kind: NetThread },
+    /// `NetworkSender::send` is about to hand a batch to the channel (may block).
+    SendEnter {
+        from: Coord,
+        to: ReceiverEndpoint,
+        remote: bool,
+        batch: &'a dyn Batch,
+    },
+    /// `NetworkSender::send` returned.
+    SendExit { to: ReceiverEndpoint },
+    /// A receive on the endpoint(s) is about to start (may block).
+    RecvEnter {
+        at: ReceiverEndpoint,
+        other: Option<ReceiverEndpoint>,
+        blocking: bool,
+    },
+    /// A receive returned a batch.
+    Recv {
+        at: ReceiverEndpoint,
+        batch: &'a dyn Batch,
+    },
+    /// A receive returned without a batch (timeout, empty, disconnected).
+    RecvNone { at: ReceiverEndpoint },
+    /// A replica is about to wait for the iteration state of `wanted` generation.
+    StateWaitEnter { wanted: usize, current: usize },
+    /// The wait ended.
+    StateWaitExit,
+    /// The local leader stored a new iteration state.
+    StateSet { coord: Coord },
+    /// A replica enters / leaves the local state barrier.
+    BarrierEnter { coord: Coord },
+    BarrierExit { coord: Coord },
+}
+
+/// Receiver of the events. Must be cheap and must never call back into the engine.
+pub trait Observer: Send + Sync {
+    fn event(&self, event: &Event);
+}
+
+static ENABLED: AtomicBool = AtomicBool::new(false);
+static OBSERVER: RwLock<Option<Arc<dyn Observer>>> = RwLock::new(None);
+
+/// Install (or remove) the process-wide observer.
+pub fn set_observer(observer: Option<Arc<dyn Observer>>) {
+    let mut guard = OBSERVER.write().unwrap_or_else(|e| e.into_inner());
+    ENABLED.store(observer.is_some(), Ordering::SeqCst);
+    *guard = observer;
+}
+
+/// True if an observer is installed.
+#[inline]
+pub fn enabled() -> bool {
+    ENABLED.load(Ordering::Relaxed)
+}
+
+/// Report an event to the observer, if any.
+#[inline]
+pub fn emit(event: &Event) {
+    if !enabled() {
+        return;
+    }
+    let observer = OBSERVER
+        .read()
+        .unwrap_or_else(|e| e.into_inner())
+        .as_ref()
+        .cloned();
+    if let Some(observer) = observer {
+        observer.event(event);
+    }
+}
+
+struct HashWriter(wyhash::WyHash);
+
+impl std::io::Write for HashWriter {
+    fn write(&mut self, buf: &[u8]) -> std::io::Result<usize> {
+        self.0.write(buf);
+        Ok(buf.len())
+    }
+    fn flush(&mut self) -> std::io::Result<()> {
+        Ok(())
+    }
+}
+
+/// Hash of the serialized form of a payload.
+pub fn payload_hash<T: Serialize>(value: &T) -> u64 {
+    let mut w = HashWriter(wyhash::WyHash::with_seed(0x5eed));
+    if bincode::serialize_into(&mut w, value).is_err() {
+        return u64::MAX;
+    }
+    w.0.finish()
+}
+
+/// Function digesting a payload, captured where the payload type is known to be serializable.
+pub(crate) type PayloadHashFn<T> = fn(&T) -> u64;
+
+pub(crate) struct BatchRef<'a, T> {
+    pub(crate) message: &'a NetworkMessage<T>,
+    pub(crate) hash: PayloadHashFn<T>,
+}
+
+impl<'a, T: 'static> Batch for BatchRef<'a, T> {
+    fn sender(&self) -> Coord {
+        self.message.sender()
+    }
+
+    fn len(&self) -> usize {
+        self.message.num_items()
+    }
+
+    fn digests(&self) -> Vec<ElemDigest> {
+        self.message
+            .verif_elements()
+            .iter()
+            .map(|e| match e {
+                StreamElement::Item(x) => ElemDigest {
+                    kind: KIND_ITEM,
+                    ts: 0,
+                    hash: (self.hash)(x),
+                },
+                #[cfg(feature = "timestamp")]
+                StreamElement::Timestamped(x, ts) => ElemDigest {
+                    kind: KIND_TIMESTAMPED,
+                    ts: *ts,
+                    hash: (self.hash)(x),
+                },
+                #[cfg(feature = "timestamp")]
+                StreamElement::Watermark(ts) => ElemDigest {
+                    kind: KIND_WATERMARK,
+                    ts: *ts,
+                    hash: 0,
+                },
+                #[cfg(not(feature = "timestamp"))]
+                StreamElement::Timestamped(x, _) => ElemDigest {
+                    kind: KIND_TIMESTAMPED,
+                    ts: 0,
+                    hash: (self.hash)(x),
+                },
+                #[cfg(not(feature = "timestamp"))]
+                StreamElement::Watermark(_) => ElemDigest {
+                    kind: KIND_WATERMARK,
+                    ts: 0,
+                    hash: 0,
+                },
+                StreamElement::FlushBatch => ElemDigest {
+                    kind: KIND_FLUSH_BATCH,
+                    ts: 0,
+                    hash: 0,
+                },
+                StreamElement::Terminate => ElemDigest {
+                    kind: KIND_TERMINATE,
+                    ts: 0,
+                    hash: 0,
+                },
+                StreamElement::FlushAndRestart => ElemDigest {
+                    kind: KIND_FLUSH_AND_RESTART,
+                    ts: 0,
+                    hash: 0,
+                },
+            })
+            .collect()
+    }
+
+    fn payload(&self, i: usize) -> Option<&dyn Any> {
+        match self.message.verif_elements().get(i) {
+            Some(StreamElement::Item(x)) | Some(StreamElement::Timestamped(x, _)) => Some(x),
+            _ => None,
+        }
+    }
+}
+
+/// Emits `SendExit` when dropped.
+pub(crate) struct SendGuard(pub(crate) Option<ReceiverEndpoint>);
+
+impl Drop for SendGuard {
+    fn drop(&mut self) {
+        if let Some(to) = self.0 {
+            emit(&Event::SendExit { to });
+        }
+    }
+}
+
+/// Emits `WorkerEnd` when dropped, telling whether the thread is unwinding.
+pub(crate) struct WorkerGuard(pub(crate) Coord);
+
+impl Drop for WorkerGuard {
+    fn drop(&mut self) {
+        emit(&Event::WorkerEnd {
+            coord: self.0,
+            panicked: std::thread::panicking(),
+        });
+    }
+}
+
+/// Emits `NetEnd` when dropped.
+pub(crate) struct NetGuard(pub(crate) NetThread, pub(crate) (u64, u64, u64));
+
+impl NetGuard {
+    pub(crate) fn new(kind: NetThread, demux: (u64, u64, u64)) -> Self {
+        emit(&Event::NetStart { kind, demux });
+        NetGuard(kind, demux)
+    }
+}
+
+impl Drop for NetGuard {
+    fn drop(&mut self) {
+        emit(&Event::NetEnd {
+            kind: self.0,
+            demux: self.1,
+        });
+    }
+}
+
+/// One block of the execution graph as computed by one host.
+#[derive(Debug, Clone, PartialEq, Eq)]
+pub struct BlockDump {
+    pub block_id: u64,
+    pub repr: String,
+    /// `Debug` form of the replication requirement of the block.
+    pub replication: String,
+    pub is_only_one_strategy: bool,
+    /// `(replica, global id)`, sorted by replica.
+    pub replicas: Vec<(Coord, u64)>,
+}
+
+/// The execution graph and the address map as computed by one host, without starting anything.
+#[derive(Debug, Clone, PartialEq, Eq)]
+pub struct GraphDump {
+    /// Sorted by block id.
+    pub blocks: Vec<BlockDump>,
+    /// `(from, to, type id, fragile)`, sorted.
+    pub links: Vec<(Coord, Coord, String, bool)>,
+    /// `((block, host, prev block) of the demultiplexer, address, port)`, sorted.
+    pub addresses: Vec<((u64, u64, u64), String, u16)>,
+}
